@@ -23,7 +23,7 @@ fn gen_cond(rng: &mut Rng, depth: u32) -> Sx {
 
 pub fn gen(tier: Tier, rng: &mut Rng) -> Vec<Sx> {
     let mut v = vec![];
-    let n = if tier == Tier::Thorough { 6000 } else { 700 };
+    let n = if tier == Tier::Thorough { 2500 } else { 700 };
     for _ in 0..n {
         let nr = rng.range(1, 24);
         let sals = [0i64, 0, 0, 5, 5, -2, 10];
@@ -32,7 +32,7 @@ pub fn gen(tier: Tier, rng: &mut Rng) -> Vec<Sx> {
         let mut kvs: Vec<Sx> = vec![];
         for k in 0..4 { if rng.chance(5, 6) { kvs.push(Sx::l(vec![Sx::i(k), Sx::i(rng.below(6) as i64)])); } }
         let cfg = Sx::l(vec![Sx::b(rng.chance(5, 6)), Sx::n(rng.range(1, 16)), Sx::n(rng.range(1, 4))]);
-        v.push(Sx::l(vec![cfg, Sx::l(kvs), Sx::l(rules), Sx::n(if tier == Tier::Thorough { 12 } else { 6 })]));
+        v.push(Sx::l(vec![cfg, Sx::l(kvs), Sx::l(rules), Sx::n(if tier == Tier::Thorough { 10 } else { 6 })]));
     }
     v
 }
